@@ -190,3 +190,10 @@ package gcrypto
 //@   loop 2 invariant visited-disjoint: forall h1 string, h2 string, i mathint :: {bsbits(mapvals(out)[h1])[i], bsbits(mapvals(out)[h2])[i]}
 //@       visited(2)[h1] && visited(2)[h2] && h1 != h2 ==> !(bsbits(mapvals(out)[h1])[i] && bsbits(mapvals(out)[h2])[i])
 //@   loop 2 invariant visited-in-out: forall h string :: {visited(2)[h]} visited(2)[h] ==> (h in out)
+
+// Merge takes verified signatures from another proof over the same message and keys.
+//@ iface CommonMessageSignatureProof.Merge(p, other)
+//@   ensures monotone: forall j mathint :: {pbits(p)[j]} old(pbits(p))[j] ==> pbits(p)[j]
+//@   ensures only-from-other: forall j mathint :: {pbits(p)[j]} pbits(p)[j] ==> old(pbits(p))[j] || pbits(other)[j]
+//@   ensures increased-flag: result.IncreasedSignatures == !(pbits(p) == old(pbits(p)))
+//@   modifies pbits(p)
